@@ -211,7 +211,9 @@ fn process_dir(
                     *quit = true;
                     break;
                 }
-                if matcher_io.should_skip_current_dir() {
+                // With -depth the directory's contents have already been visited and
+                // skip_current_dir() would drop the directory's remaining siblings instead.
+                if matcher_io.should_skip_current_dir() && !config.depth_first {
                     it.skip_current_dir();
                 }
             }
